@@ -280,7 +280,7 @@ func evalFile(prop string, c FileCase) (viol []string, res *Result, note string)
 	}
 	run := func() (*Result, []string) {
 		var v []string
-		r := Run(p, c.Schedule, Options{VdrMode: c.Params.Mode, MrpPid: 6161, Inspect: func(r *Result) {
+		r := Run(p, c.Schedule, Options{VdrMode: c.Params.Mode, MrpPid: 6161, SymlinkParent: c.Params.Phys, Inspect: func(r *Result) {
 			if !strings.HasPrefix(r.Err, "invoke:") {
 				v = fileOracle(prop, c.Params, r)
 			}
@@ -351,13 +351,19 @@ func FileCheck(prop string) {
 		maxDev = 3
 	}
 	fam := progen.FileFamily(maxDev)
+	// programs with fewer deviating dimensions get the schedule deviations;
+	// the outermost ring runs under the default schedule only
+	fullSched := map[string]bool{}
+	for _, d := range progen.FileFamily(maxDev - 1) {
+		fullSched[d.String()] = true
+	}
 	if !ev.IsWorker() {
 		r.Rule = fmt.Sprintf("every vector of the file-flow family with at most %d of 10 shape dimensions off their base value (which producer output carries the file: "+
 			"filetype/file/array/typed map/struct/struct array/map of structs/string/untyped map/path; projection through the struct field; split producer; producer or consumer inside a sub-pipeline; "+
 			"mapped consumer; mapped producer; a second late consumer; retain at stage or pipeline; file returned by the top-level pipeline) x all volatile annotations {call volatile, none, stage strict, stage false} "+
 			"x all VDR modes {rolling, post, strict}; each program runs on the real runtime with model jobs that write real files and verify every file named in their arguments; "+
-			"schedules: default, each job held until quiescence, each job start-only, each VDR goroutine (doJoin/doComplete) deferred by 0, 1 or 3 loop iterations. "+
-			"distinct = distinct (program, schedule); non-trivial = VDR removed at least one path", maxDev)
+			"schedules: default for all; for the vectors with at most %d dimensions off base additionally each job held until quiescence, each job start-only, each VDR goroutine (doJoin/doComplete) deferred by 0, 1 or 3 loop iterations. "+
+			"distinct = distinct (program, schedule); non-trivial = VDR removed at least one path", maxDev, maxDev-1)
 		r.Set("programs_in_family", len(fam))
 		r.RunWorkers(0)
 		r.Assume("VDR goroutine bodies are atomic with respect to the scheduler loop (they are deferred as a whole, not interleaved statement by statement); a free-running -race pass is separate")
@@ -427,6 +433,9 @@ func FileCheck(prop string) {
 		}
 		sort.Strings(keys)
 		var scheds []Schedule
+		if !fullSched[d.String()] {
+			continue
+		}
 		for _, k := range keys {
 			scheds = append(scheds, Schedule{Delay: []string{k}}, Schedule{StartOnly: map[string]bool{k: true}})
 		}
